@@ -425,8 +425,44 @@ def c15_check(pid, tier, seed, replay=None):
             res.machinery.append("ParseSession.tla does not satisfy its properties: %s" % good["errors"][:4])
         if bad["ok"]:
             res.machinery.append("ParseSession.tla without restore-on-failure was not refuted (vacuity)")
+        # unbounded in the number of parser steps: an inductive invariant discharged by Apalache
+        res.coverage["session_model_unbounded"] = _apalache_session()
+        if res.coverage["session_model_unbounded"].get("status") == "failed":
+            res.machinery.append("Apalache: the inductive invariant of ApaParseSession.tla was not established: %s"
+                                 % res.coverage["session_model_unbounded"])
     res.level = "fault_enumeration"
     return res
+
+
+def _apalache_session():
+    """IndInv of spec/apalache/ApaParseSession.tla is inductive (any number of parser steps), implies the safety properties, and
+    is refuted when the failure path may skip the restore"""
+    import subprocess
+    import shutil as _sh
+    if _sh.which("apalache-mc") is None:
+        return {"status": "skipped", "why": "apalache-mc not on PATH"}
+    out = tlcrun.scratch("apa-")
+    runs = [("step", "CInit", "IndInit", "IndInv", 1, True), ("base", "CInit", "Init", "IndInv", 0, True),
+            ("implies_safety", "CInit", "IndInit", "Safety", 0, True), ("without_restore", "CInitAny", "IndInit", "IndInv", 1, False)]
+    got = {}
+    try:
+        for name, cinit, init, inv, length, want_ok in runs:
+            try:
+                p = subprocess.run(["apalache-mc", "check", "--cinit=" + cinit, "--init=" + init, "--inv=" + inv,
+                                    "--length=%d" % length, "--out-dir=" + os.path.join(out, name),
+                                    os.path.join(tlcrun.SPEC, "apalache", "ApaParseSession.tla")],
+                                   capture_output=True, text=True, timeout=600, cwd=out)
+                ok = "EXITCODE: OK" in p.stdout
+                got[name] = "holds" if ok else ("refuted" if "EXITCODE: ERROR (12)" in p.stdout else "error")
+                if (got[name] == "holds") != want_ok or got[name] == "error":
+                    got["status"] = "failed"
+            except Exception as e:
+                got[name] = "error: %s" % type(e).__name__
+                got["status"] = "failed"
+    finally:
+        shutil.rmtree(out, ignore_errors=True)
+    got.setdefault("status", "inductive invariant established for every MaxSteps in Nat; refuted without restore-on-failure")
+    return got
 
 
 HANDLERS = {"C01": ir_history, "C02": ir_history, "C14": ir_history, "C10": ir_history, "C19": ir_history, "C11": ir_history,
